@@ -380,6 +380,59 @@ func scratch() string {
 }
 
 func runOne(ctx context.Context, sp solverSpec, file string, timeoutMs int) (status string, out string, secs float64) {
+	return runOneSeed(ctx, sp, file, timeoutMs, solverSeed)
+}
+
+// solveRetry: last attempt for an undecided query: all solvers, several random
+// seeds, a longer time limit. Any "unsat" is a proof; "sat" is only accepted
+// from the base seed run (models are what replay uses).
+func solveRetry(query string, timeoutMs int) *SolveResult {
+	file := filepath.Join(scratch(), fmt.Sprintf("retry-%x.smt2", sha256.Sum256([]byte(query)))[:60]+".smt2")
+	if err := os.WriteFile(file, []byte(query+"(check-sat)\n(get-model)\n"), 0o644); err != nil {
+		panic(err)
+	}
+	defer os.Remove(file)
+	res := &SolveResult{Status: "unknown", Detail: map[string]string{}}
+	t0 := time.Now()
+	type r struct {
+		name, st, out string
+	}
+	ctx, cancel := context.WithCancel(context.Background())
+	defer cancel()
+	seeds := []int{solverSeed, solverSeed + 1, solverSeed + 2}
+	ch := make(chan r, len(solvers)*len(seeds))
+	for _, sp := range solvers {
+		for _, sd := range seeds {
+			sp, sd := sp, sd
+			go func() {
+				st, out, _ := runOneSeed(ctx, sp, file, timeoutMs, sd)
+				ch <- r{fmt.Sprintf("%s (retry, seed %d)", sp.name, sd), st, out}
+			}()
+		}
+	}
+	for i := 0; i < len(solvers)*len(seeds); i++ {
+		x := <-ch
+		if res.Status != "unknown" {
+			continue
+		}
+		res.Detail[x.name] = firstLine(x.out)
+		if x.st == "unsat" || x.st == "sat" {
+			res.Status, res.Backend = x.st, x.name
+			if x.st == "sat" {
+				res.Model = x.out
+			}
+			cancel()
+		}
+	}
+	res.Secs = time.Since(t0).Seconds()
+	statMu.Lock()
+	statQueries++
+	statSolverS += res.Secs
+	statMu.Unlock()
+	return res
+}
+
+func runOneSeed(ctx context.Context, sp solverSpec, file string, timeoutMs int, seed int) (status string, out string, secs float64) {
 	select {
 	case solverSem <- struct{}{}:
 	case <-ctx.Done():
@@ -388,7 +441,7 @@ func runOne(ctx context.Context, sp solverSpec, file string, timeoutMs int) (sta
 	defer func() { <-solverSem }()
 	cctx, cancel := context.WithTimeout(ctx, time.Duration(timeoutMs+2000)*time.Millisecond)
 	defer cancel()
-	argv := sp.argv(file, timeoutMs, solverSeed)
+	argv := sp.argv(file, timeoutMs, seed)
 	cmd := exec.CommandContext(cctx, argv[0], argv[1:]...)
 	var buf bytes.Buffer
 	cmd.Stdout = &buf
